@@ -261,9 +261,14 @@ Definition rstate : Type := tgraph * rpend * bool * list tdeliv.   (* graph, pen
 (* Stream._emit at n: `for downstream in list(self.downstreams)` walks the SNAPSHOT taken when this call started
    (the list t_downs (tget g n) the fold runs over), while every hand-over looks at the CURRENT graph: an edit made by
    the reactive sink changes both ends of the link at once, deeper _emit calls that start later take their snapshot
-   from the edited graph, loops already running keep theirs.  A combining node that is handed an element by a node
-   that is no longer among its inputs (served from a stale snapshot) raises (zip: self.buffers[who] KeyError,
-   combine_latest: self.upstreams.index(who) ValueError) and the exception unwinds the whole emission. *)
+   from the edited graph, loops already running keep theirs.  Before each hand-over the loop tests
+   `downstream not in self.downstreams` on the CURRENT graph and skips a child that was detached after the snapshot
+   was taken (the repair of defect 32, "detached-input-still-served"): the edge no longer exists.
+   The update of a combining node still raises when it is handed an element by a node that is not among its inputs
+   (zip: self.buffers[who] KeyError, combine_latest: self.upstreams.index(who) ValueError) and the exception would
+   unwind the whole emission - but since links are kept consistent at both ends and a detached child is skipped,
+   that never happens in a legal history (TopologyReentrant.reentrant_never_raises).  Before the repair the running
+   loop served the stale snapshot and the raise was reachable. *)
 Fixpoint rdeliver (fuel : nat) (g : tgraph) (p : rpend) (n : nat) (x : val) : rstate :=
   match fuel with
   | O => (g, p, false, [])
@@ -271,6 +276,7 @@ Fixpoint rdeliver (fuel : nat) (g : tgraph) (p : rpend) (n : nat) (x : val) : rs
       fold_left (fun (acc : rstate) d =>
         let '(g, p, raised, log) := acc in
         if raised then acc else
+        if negb (mem d (t_downs (tget g n))) then acc else      (* detached since the snapshot: skipped *)
         let nd := tget g d in
         let log := log ++ [(n, d, x)] in
         match tk nd with
